@@ -47,7 +47,7 @@ func init() {
 	fw.Register(&fw.Prop{
 		ID:    "C02",
 		Level: "exploration",
-		Rule: "cases = API programs (Write / Writer with a chunking / Ping, then Close(code, reason)) run by one goroutine on a library endpoint of either role under each negotiated (client_no_context_takeover, server_no_context_takeover) agreement and threshold; " +
+		Rule: "cases = API programs (Write / Writer with a chunking / Ping, then Close(code, reason)) run by one goroutine on a library endpoint of either role under each negotiated (client_no_context_takeover, server_no_context_takeover) agreement and threshold, Close reasons made of 1-4 byte characters up to and beyond 123 bytes, plus scenarios in which a streamed message's Close gives up behind a control frame stuck in the transport and the application then writes on; " +
 			"the raw peer feeds every emitted byte to the independent Conform monitor. distinct key = (role, agreement, threshold class, op kind, size class, chunking, content kind, compressed-on-the-wire?)",
 		Gen:         c02Gen,
 		ChildSetup:  c02Setup,
